@@ -118,15 +118,20 @@ inductive RouteCfg
   | only (segs : List RouteSeg)
 deriving Repr, DecidableEq
 
+/-- `route` = `UCMM.route_path` (the personality); `routes` = the keys of the routing table `UCMM.route`
+(port/link --> another EtherNet/IP device).  In the check every route leads to a device that serves the same
+objects with the same UCMM (the simulator itself), one hop away. -/
 structure Cfg where
-  route : RouteCfg := .any
+  route  : RouteCfg := .any
+  routes : List RouteSeg := []
 deriving Repr, DecidableEq
 
 /-- per-connection state: the device, the stream `random.randint` will deliver, `UCMM.sessions[addr]` -/
 structure Srv where
-  dev     : Dev
-  rand    : List Nat
-  session : Option Nat := none
+  dev       : Dev
+  rand      : List Nat
+  session   : Option Nat := none
+  routeConn : Bool := false       -- `UCMM.route_conn[target]`: a registered client connection to the route's device
 deriving Repr, DecidableEq
 
 /-! ### pieces of UCMM.request -/
@@ -165,6 +170,17 @@ answered *the wrapper*; the embedded request came back unprocessed -/
 def usendToRouterOld : Wrap → Bool
   | .direct => false
   | .usend cls ins .. => cls = Generated.routerClass && (ins = 0 || ins = 1)
+
+/-- `find_route()`: the first route path segment names an entry of the routing table; the request is then forwarded
+with that segment removed -- bare when nothing remains, else in an Unconnected Send with the same send path -/
+def routedVia (cfg : Cfg) : Wrap → Option Wrap
+  | .direct => none
+  | .usend _ _ _ _ [] => none
+  | .usend cls ins prio ticks (r :: rest) =>
+    if cfg.routes.contains r then some (if rest.isEmpty then .direct else .usend cls ins prio ticks rest) else none
+
+/-- `data.enip.status = 0x65` while a routed request is under way: what any failure of it leaves behind -/
+def routeFailStatus : Nat := Generated.routeFailStatus
 
 def Cip.path : Cip → Path
   | .req (.simple s) _ => match s with
@@ -233,6 +249,26 @@ def processWith (fixed : Bool) (cfg : Cfg) (s : Srv) (f : Frame) : Srv × Outcom
   | .sendItems .. => (s, refuse f)
   | .unknownCmd .. => (s, .abort)
   | .send _ iface timeout w c =>
+    match routedVia cfg w with
+    | some inner =>
+      -- the connection to the route's device: created and registered on first use, and after every failure
+      let conn : Option Srv :=
+        if s.routeConn then some s
+        else match pickNonzero s.rand with
+          | none => none
+          | some (_, rest) => some { s with rand := rest, routeConn := true }
+      match conn with
+      | none => ({ s with rand := [], routeConn := false }, .reply (echo f routeFailStatus []))
+      | some s1 =>
+        -- the route's device serves the forwarded request as a local one; whatever it refuses, the forwarding
+        -- UCMM turns into a failure, and discards the connection
+        if !routeAccepts cfg.route inner || !usendToCM inner then
+          ({ s1 with routeConn := false }, .reply (echo f routeFailStatus []))
+        else
+          match cmRequest s1.dev c with
+          | (d', some bs) => ({ s1 with dev := d' }, .reply (echo f 0 (sendFraming iface timeout bs)))
+          | (d', none) => ({ s1 with dev := d', routeConn := false }, .reply (echo f routeFailStatus []))
+    | none =>
     if !routeAccepts cfg.route w then (s, refuse f)
     else if !fixed && usendToRouterOld w then
       (s, .reply (echo f f.hdr.status (sendFraming iface timeout c.raw)))
@@ -288,6 +324,11 @@ def serveBatches (cfg : Cfg) : Srv → List (List Frame) → Run
       ⟨r2.srv, r1.replies ++ r2.replies, r1.consumed + r2.consumed, r2.end⟩
     | _ => r1
 
+/-- several connections one after the other (same peer address), on the same device and UCMM -/
+def serveSessions (cfg : Cfg) : Srv → List (List Frame) → List Run
+  | _, [] => []
+  | s, fs :: rest => let r := serve cfg s fs; r :: serveSessions cfg r.srv rest
+
 /-! ### which frames the model speaks about -/
 
 def Cip.inScope (d : Dev) (c : Cip) : Bool :=
@@ -301,7 +342,7 @@ def Cip.inScope (d : Dev) (c : Cip) : Bool :=
        Generated.svcGetAttrSingle, Generated.svcSetAttrSingle, Generated.svcGetAttrAll, Generated.svcGetAttrList,
        Generated.svcMultiple].contains code)
 
-def Frame.inScope (d : Dev) (f : Frame) : Bool :=
+def Frame.inScope (cfg : Cfg) (d : Dev) (f : Frame) : Bool :=
   f.hdr.context.length == 8 &&
   match f.body with
   | .registerShort bs => bs.length < 4
@@ -309,7 +350,11 @@ def Frame.inScope (d : Dev) (f : Frame) : Bool :=
   | .sendItems _ _ _ items => items.all fun (t, _) => !Generated.cpfItemTypes.contains t
   | .send _ _ _ w c =>
     -- a bare request whose first byte is 0x52 is taken for an Unconnected Send by the CPF item parser
-    c.inScope d && !(w == .direct && c.service == Generated.svcUnconnectedSend)
+    c.inScope d &&
+    (match routedVia cfg w with
+     | some inner =>      -- one hop only; the forwarded request is subject to the same ambiguity
+       !(inner == .direct && c.service == Generated.svcUnconnectedSend) && (routedVia cfg inner).isNone
+     | none => !(w == .direct && c.service == Generated.svcUnconnectedSend))
   | _ => true
 
 end Cpppo.Session
